@@ -226,7 +226,9 @@ func c09Record(col *collector, c c09Case) {
 		cl = append(cl, "target-dir-does-not-exist-yet")
 	}
 	col.eval(d >= 1 && fl >= 1 || hostile, hash64(fmt.Sprint(c)), cl...)
-	col.sample(func() any { return map[string]any{"forest": c.Forest.String(), "route": c.Route, "massive": c.Massive, "exts": c.Exts} })
+	col.sample(func() any {
+		return map[string]any{"forest": c.Forest.String(), "route": c.Route, "massive": c.Massive, "exts": c.Exts}
+	})
 }
 
 func TestC09Known(t *testing.T) {
